@@ -15,6 +15,7 @@ import (
 	"os"
 	"sort"
 	"strconv"
+	"strings"
 	"sync"
 	"testing"
 	"time"
@@ -169,6 +170,15 @@ func sigKey(sig map[string]string) string {
 // Violation records a refuting observation.  At most 3 violations per identical
 // signature and 200 in total are kept (the count is still reported).
 func (r *Run) Violation(sig map[string]string, what string, replay any) {
+	// An expiry of the harness' own I/O watchdog (60 s; protocol deadlocks are detected
+	// logically and reported as such) says the machine was too slow, never that the code
+	// under test is wrong: report it as inconclusive.
+	if strings.Contains(what, "[harness watchdog expired]") || strings.Contains(what, "i/o timeout") || strings.Contains(what, "deadline exceeded") {
+		if sig["kind"] != "hang" && sig["kind"] != "panic" {
+			r.Inconclusive("watchdog expiry, not a verdict: " + firstN(what, 300))
+			return
+		}
+	}
 	r.mu.Lock()
 	defer r.mu.Unlock()
 	k := sigKey(sig)
@@ -237,6 +247,13 @@ func (r *Run) Finish(t testing.TB) {
 			t.Logf("  violation %v: %s", v.Sig, v.What)
 		}
 	}
+}
+
+func firstN(s string, n int) string {
+	if len(s) > n {
+		return s[:n]
+	}
+	return s
 }
 
 // Hex is a helper for samples/replays.
